@@ -30,7 +30,7 @@ META = dict(
 OBLIGATIONS = [
     "C20_last", "C20_last_known", "C20_last_known_unique", "C20_max", "C20_mean", "C20_mean_bounds", "C20_repeat",
     "C20_last_rounded_ok", "C20_last_rounded_refuted",
-    "C20_blup_normal_eq", "C20_blup_sound", "C20_intercept_special_case", "C20_intercept_conditional_mean",
+    "C20_blup_normal_eq", "C20_blup_sound", "C20_penalised_ls_optimal", "C20_intercept_special_case", "C20_intercept_conditional_mean",
     "C20_personalize", "C20_personalize_defined", "C20_line",
 ]
 
@@ -255,7 +255,7 @@ def const_direct(run: Run, n_cases: int):
         return
     for i in bad:
         m, obs, err = meta[i]
-        run.fail(sig_const(m["kind"], [(r[0], r[1]) for r in m["rows"]]) + ":model",
+        run.fail(sig_const(m["kind"], [(r[0], r[1]) for r in m["rows"]]),
                  f"_get_feature_values('{m['kind']}') differs from the Coq model (Bench.predict) on this history", m,
                  expected=show(ref_predict(m["kind"], m["d"], [(t, [NAN if v is None else v for v in vals]) for t, vals in m["rows"]])),
                  observed=obs if err is None else err)
@@ -322,7 +322,12 @@ def const_api(run: Run, n_datasets: int):
                 if not kept:
                     continue
                 obs_ip = [float(ip._individual_parameters[i][f]) for f in feats]
-                obs = [[float(x) for x in row] for row in np.asarray(est[i]).reshape(len(ages[i]), d)]
+                arr = np.asarray(est[i])
+                if arr.shape != (len(ages[i]), d):
+                    run.fail(f"constant:{kind}:not-repeated", f"estimate() returns an array of shape {arr.shape} for {len(ages[i])} requested ages and {d} features",
+                             dict(m, ages=ages[i]), expected=[len(ages[i]), d], observed=list(arr.shape))
+                    continue
+                obs = [[float(x) for x in row] for row in arr]
                 tol = Fraction(1, 10 ** 6) if kind == "mean" else 0
                 payload = coq_list([coq_list([cvalue(v) for v in row]) for row in obs])
                 cases.append(f"({KINDS[kind]}, {d}%nat, {ctable(kept)}, {coq_list([q(a) for a in ages[i]])}, {cres(None, payload)}, {q(tol)})")
@@ -351,7 +356,7 @@ def const_api(run: Run, n_datasets: int):
     for i in bad or []:
         m, obs = meta[i]
         kept = [(t, [NAN if v is None else v for v in vals]) for t, vals in m["rows"]]
-        run.fail(sig_const(m["kind"], kept) + ("" if "collide" in sig_const(m["kind"], kept) else ":model"),
+        run.fail(sig_const(m["kind"], kept),
                  f"personalize+estimate('{m['kind']}') differs from the Coq model (Bench.constant_estimate) on this history", m,
                  expected=show(ref_predict(m["kind"], m["d"], [r for r in kept if not (m["drop_full_nan"] and all(isnan(v) for v in r[1]))])),
                  observed=obs)
@@ -404,7 +409,7 @@ def lme_blup_direct(run: Run, n_cases: int):
         # oracle: residual of the normal equations in floating point
         res = M @ np.array(out) - np.array(Z).T @ np.array(r)
         if float(np.abs(res).max()) > 1e-9 * (1 + float(np.abs(M).max()) * float(np.abs(out).max())):
-            run.fail("lme:blup:normal-equations", "(Z'Z + cov_re_unscaled_inv) b != Z' resid", m,
+            run.fail("lme:blup", "(Z'Z + cov_re_unscaled_inv) b != Z' resid", m,
                      expected=[float(x) for x in np.linalg.solve(M, np.array(Z).T @ np.array(r))], observed=out)
     if meta:
         run.sample(dict(meta[0][0], observed=meta[0][1]))
@@ -413,7 +418,7 @@ def lme_blup_direct(run: Run, n_cases: int):
         m, out = meta[i]
         import numpy as np
         Zm, rm, Pm = np.array(m["Z"]), np.array(m["r"]), np.array(m["P"])
-        run.fail("lme:blup:model", "_generic_get_random_effects differs from the Coq model (Bench.blup2)", m,
+        run.fail("lme:blup", "_generic_get_random_effects differs from the Coq model (Bench.blup2)", m,
                  expected=[float(x) for x in np.linalg.solve(Zm.T @ Zm + Pm, Zm.T @ rm)], observed=out)
     run.extra["lme_blup_cases"] = len(cases)
 
@@ -537,7 +542,7 @@ def lme_cases(run: Run, params, slope, histories, tag, cases_p, meta_p, cases_t,
         ic = p["fe"][0] + out[0] - p["ages_mean"] * sl
         for a_, v in zip(ages, y):
             if abs(v - (ic + sl * a_)) > 2e-6 * (1 + abs(ic) + abs(sl * a_)):
-                run.fail("lme:trajectory:not-the-line", "trajectory is not intercept + slope*age with slope=(fe1+re1)/ages_std", mt,
+                run.fail("lme:trajectory", "trajectory is not intercept + slope*age with slope=(fe1+re1)/ages_std", mt,
                          expected=[ic + sl * x for x in ages], observed=y)
                 break
 
@@ -701,7 +706,7 @@ def lme_fitted(run: Run, n_cohorts: int, cases_p, meta_p, cases_t, meta_t, cases
                 sl = (p["fe"][1] + re1) / p["ages_std"]
                 ic = p["fe"][0] + re0 - p["ages_mean"] * sl
                 if any(abs(v - (ic + sl * a)) > 2e-6 * (1 + abs(ic) + abs(sl * a)) for a, v in zip(ages, est)):
-                    run.fail("lme:trajectory:not-the-line", "estimate() is not intercept + slope*age", dict(m0, id=i, ages=ages),
+                    run.fail("lme:trajectory", "estimate() is not intercept + slope*age", dict(m0, id=i, ages=ages),
                              expected=[ic + sl * a for a in ages], observed=est)
                 cases_t.append(f"({cparams(p)}, ({q(re0)}, {q(re1)}), {coq_list([q(a) for a in ages])}, "
                                f"{cres(None, coq_list([q(v) for v in est]))}, {q(Fraction(1, 10 ** 6))})")
@@ -722,7 +727,7 @@ def lme_all(run: Run, thorough: bool):
     for i in bad or []:
         m, out = meta_p[i]
         obs = [(t, NAN if v is None else v) for t, v in m["obs"]]
-        run.fail("lme:personalize:model", "personalised random effects differ from the Coq model (Bench.lme_personalize: normalised ages, "
+        run.fail("lme:personalize", "personalised random effects differ from the Coq model (Bench.lme_personalize: normalised ages, "
                  "fixed-effect residuals, (Z'Z + cov_re_unscaled_inv)^-1 Z'r)", m,
                  expected=ref_personalize(m["params"], m["with_random_slope_age"], obs), observed=out)
     bad = run.vm_bad_indices("lme_traj", HDR, "lme_params * (Q * Q) * list Q * res (list Q) * Q", cases_t, "check_traj", shard=150)
@@ -730,12 +735,12 @@ def lme_all(run: Run, thorough: bool):
         m, y = meta_t[i]
         p = m["params"]
         sl = (p["fe"][1] + m["re"][1]) / p["ages_std"] if p["ages_std"] else NAN
-        run.fail("lme:trajectory:model", "trajectory differs from the Coq model (Bench.lme_trajectory = X(fe + re) on normalised ages)", m,
+        run.fail("lme:trajectory", "trajectory differs from the Coq model (Bench.lme_trajectory = X(fe + re) on normalised ages)", m,
                  expected=[p["fe"][0] + m["re"][0] + sl * (a - p["ages_mean"]) for a in m["ages"]], observed=y)
     bad = run.vm_bad_indices("lme_blup_rec", HDR, "list (Q * Q) * list Q * mat2 * res (Q * Q) * Q", cases_b, "check_blup2", shard=150)
     for i in bad or []:
         m, out = meta_b[i]
-        run.fail("lme:blup:model", "recorded call of _generic_get_random_effects differs from the Coq model (Bench.blup2)", m, observed=out)
+        run.fail("lme:blup", "recorded call of _generic_get_random_effects differs from the Coq model (Bench.blup2)", m, observed=out)
     run.extra["lme_personalize_cases"] = len(cases_p)
     run.extra["lme_trajectory_cases"] = len(cases_t)
     run.extra["lme_recorded_blup_calls"] = len(cases_b)
